@@ -853,6 +853,7 @@ def g_equiv(r, v):
     """-> (rel, lhs, [rhs...])"""
     g = Gen(r, v)
     rel = r.choice(['named-ref', 'named-ref', 'partial-static', 'partial-static', 'partial-inline', 'partial-chain',
+                    'partial-siblings', 'partial-siblings',
                     'repeat', 'expand:for-each', 'expand:filter', 'expand:fold-left', 'expand:fold-right',
                     'expand:for-each-pair', 'expand:apply', 'ref-in-hof', 'focus-ref', 'focus-ref'])
     if rel == 'focus-ref':
@@ -880,7 +881,7 @@ def g_equiv(r, v):
         return rel, lhs, [['for', 'q', src, ['int', n]]]
     if rel == 'expand:apply' and v < '3.1':
         rel = 'expand:fold-left'
-    if rel in ('named-ref', 'partial-static', 'partial-chain', 'repeat') and r.random() < 0.8:
+    if rel in ('named-ref', 'partial-static', 'partial-chain', 'repeat', 'partial-siblings') and r.random() < 0.8:
         name, args, _ = r.choice([e for e in EXT if e[2] <= v])
         args = raws(args)
     else:
@@ -902,6 +903,30 @@ def g_equiv(r, v):
         return rel, ['call', ['idx', ['seq', ['ref', 'true', 0], ref], ['int', 2]], args], [direct]
     if rel in ('partial-static', 'partial-chain', 'repeat') and n == 0:
         rel = 'partial-inline'
+    if rel == 'partial-siblings' and n < 2:
+        rel = 'partial-static' if n else 'partial-inline'
+    if rel == 'partial-siblings':
+        # one item bound to $f, partially applied twice or three times with different placeholders, every partial
+        # function (and $f itself) called afterwards: each call gives what the direct call gives
+        k = r.randint(2, 3)
+        masks = []
+        while len(masks) < k:
+            m = [r.random() < 0.5 for _ in args]
+            if any(m) and not all(m) and m not in masks:
+                masks.append(m)
+            elif n == 2 and len(masks) == 2:
+                break
+        binds = [('f', ['ref', name, n])]
+        calls = []
+        for i, m in enumerate(masks):
+            binds.append(('g%d' % i, ['pcall', ['var', 'f'], [None if q else a for a, q in zip(args, m)]]))
+            calls.append(['call', ['var', 'g%d' % i], [a for a, q in zip(args, m) if q]])
+        calls.append(['call', ['var', 'f'], args])
+        r.shuffle(calls)
+        body = ['seq'] + calls
+        for nm, ex in reversed(binds):
+            body = ['let', nm, ex, body]
+        return rel, body, [direct] * len(calls)
     if rel == 'partial-static':
         mask = [r.random() < 0.5 for _ in args]
         if not any(mask):
@@ -1351,6 +1376,20 @@ def check_equiv(case, out):
             report_program(case['lhs'], v, api, m[1], m[0], o, out)
         else:
             feat, mk = REL_FEATURE.get(rel, rel), mismatch_kind(o, exp)
+            if rel == 'partial-siblings':
+                # is one of the partial applications wrong on its own (the listed partial-application defects), or
+                # only when its siblings exist (interference between the copies of one item)?
+                binds, node = [], case['lhs']
+                while node[0] == 'let':
+                    binds.append((node[1], node[2]))
+                    node = node[3]
+                alone_wrong = False
+                for nm, ex in binds[1:]:
+                    call_ = next(c for c in node[1:] if c[1] == ['var', nm])
+                    oa = eng(render(['let', 'f', binds[0][1], ['let', nm, ex, call_]]), v, api)
+                    if not (oa[0] == 'ok' and oa[1] == exp[:len(oa[1]) if oa[0] == 'ok' else 0] and oa[1]):
+                        alone_wrong = True
+                feat = 'partial-dynamic' if alone_wrong else 'partial-siblings-interfere'
             if rel.startswith('expand:fold') and mk.startswith('err:'):
                 try:
                     zero = case['lhs'][3][2][1]
